@@ -548,12 +548,13 @@ theorem length_dbl_pad (v : Str) (p : Nat) : (dbl (v ++ blanks p)).length = (dbl
 theorem entry_of_text (k v w : Str) (h : List Char) (hmk : mkCard k (ffs2c v) = some (h ++ quoted w))
     (hh : ∀ c ∈ h, printable c = true) (hw : ∀ c ∈ w, printable c = true) (hres : reserved k = false)
     (hread : ffgknm (h ++ quoted w) = k ∧ stripValue (ffpsvc (h ++ quoted w)) = w ∧ isEndCard (h ++ quoted w) = false)
-    (hl : 8 ≤ h.length) :
-    ∃ card, cardOf (k, v) = some card ∧ isEndCard card = false ∧ entryOfCard card = some (k, w) := by
-  refine ⟨h ++ quoted w ++ blanks (80 - (h ++ quoted w).length), ?_, ?_, ?_⟩
+    (hl : 8 ≤ h.length) (hfit : h.length + (dbl w).length ≤ 78) :
+    ∃ card, cardOf (k, v) = some card ∧ card.length = 80 ∧ isEndCard card = false ∧ entryOfCard card = some (k, w) := by
+  refine ⟨h ++ quoted w ++ blanks (80 - (h ++ quoted w).length), ?_, ?_, ?_, ?_⟩
   · unfold cardOf
     simp only [hmk, Option.map_some]
     rw [map_sanitize _ (printable_quoted h w _ hh hw)]
+  · simp only [List.length_append, length_blanks, quoted, List.length_cons, List.length_nil]; omega
   · have := hread.2.2
     unfold isEndCard at this ⊢
     rw [List.append_assoc, List.take_append_of_le_length hl]
@@ -563,7 +564,7 @@ theorem entry_of_text (k v w : Str) (h : List Char) (hmk : mkCard k (ffs2c v) = 
     simp only [rstrip_card, hread.1, hres, Bool.false_eq_true, if_false, hread.2.1]
 
 theorem entry_survives (k v : Str) (hval : validate k v = none) (hk : PlainKey k) (hv : PlainVal v) :
-    ∃ card, cardOf (k, v) = some card ∧ isEndCard card = false ∧
+    ∃ card, cardOf (k, v) = some card ∧ card.length = 80 ∧ isEndCard card = false ∧
       entryOfCard card = some (k, v ++ blanks (padOf k v)) := by
   obtain ⟨hres, hshort, hlong⟩ := (validate_none_iff k v).mp hval
   have hl := length_dbl v
@@ -577,7 +578,7 @@ theorem entry_survives (k v : Str) (hval : validate k v = none) (hk : PlainKey k
     have hp : padOf k v = 8 - (dbl v).length := by unfold padOf; rw [if_pos hlen, hl]
     rw [hp]
     have hwl : (dbl (v ++ blanks (8 - (dbl v).length))).length ≤ 68 := by rw [length_dbl_pad]; omega
-    refine entry_of_text k v _ (k ++ blanks (8 - k.length) ++ ['=', ' ']) ?_ ?_ (hwp _) hres ?_ ?_
+    refine entry_of_text k v _ (k ++ blanks (8 - k.length) ++ ['=', ' ']) ?_ ?_ (hwp _) hres ?_ ?_ ?_
     · rw [mkCard_short k v hlen ha (by omega)]
       simp [quoted, dbl_append, dbl_blanks]
     · intro c hc
@@ -589,6 +590,8 @@ theorem entry_survives (k v : Str) (hval : validate k v = none) (hk : PlainKey k
     · have := read_std k (v ++ blanks (8 - (dbl v).length)) hlen hk.ne ha hres hk.notEnd hk.notHistory hk.notContinue hwl
       simpa [List.append_assoc] using this
     · simp only [List.length_append, length_blanks, List.length_cons, List.length_nil]; omega
+    · rw [length_dbl_pad]
+      simp only [List.length_append, length_blanks, List.length_cons, List.length_nil]; omega
   · have h9 : 9 ≤ k.length := by omega
     obtain ⟨⟨heq, _⟩, h66, hfit⟩ := hlong h9
     have hp : padOf k v = min (8 - (dbl v).length) (67 - k.length - (dbl v).length) := by
@@ -597,11 +600,12 @@ theorem entry_survives (k v : Str) (hval : validate k v = none) (hk : PlainKey k
     obtain ⟨p, hpp⟩ : ∃ p, p = min (8 - (dbl v).length) (67 - k.length - (dbl v).length) := ⟨_, rfl⟩
     rw [← hpp]
     have hwl : (dbl (v ++ blanks p)).length ≤ 68 := by rw [length_dbl_pad]; omega
-    obtain ⟨j, hj⟩ : ∃ j, hierSep k.length (dbl v).length = blanks j ++ ['=', ' '] := by
+    obtain ⟨j, hj, hjle⟩ : ∃ j, hierSep k.length (dbl v).length = blanks j ++ ['=', ' '] ∧
+        (j = 0 ∨ (j = 1 ∧ 14 + k.length + max (dbl v).length 8 ≤ 80)) := by
       unfold hierSep; split
-      · exact ⟨0, rfl⟩
-      · exact ⟨1, rfl⟩
-    refine entry_of_text k v _ (hierPrefix ++ (k ++ blanks j) ++ ['=', ' ']) ?_ ?_ (hwp _) hres ?_ ?_
+      · exact ⟨0, rfl, Or.inl rfl⟩
+      · exact ⟨1, rfl, Or.inr ⟨rfl, by omega⟩⟩
+    refine entry_of_text k v _ (hierPrefix ++ (k ++ blanks j) ++ ['=', ' ']) ?_ ?_ (hwp _) hres ?_ ?_ ?_
     · rw [mkCard_long k v h9 h66 (by omega) hk.head hk.last heq hk.noHier, hj, ← hpp]
       simp [quoted, dbl_append, dbl_blanks]
     · intro c hc
@@ -615,6 +619,8 @@ theorem entry_survives (k v : Str) (hval : validate k v = none) (hk : PlainKey k
     · have := read_hier k (v ++ blanks p) j hk.ne hk.head hk.last heq hwl
       simpa [List.append_assoc] using this
     · simp only [List.length_append, length_blanks, List.length_cons, List.length_nil, hierPrefix]; omega
+    · rw [length_dbl_pad]
+      simp only [List.length_append, length_blanks, List.length_cons, List.length_nil, hierPrefix]; omega
 
 /-! ### whole stores -/
 
@@ -639,7 +645,7 @@ theorem cards_of_accepted (st : Store) (h : Accepted st) :
   | cons e r ih =>
     obtain ⟨cards, h1, h2, h3⟩ := ih (fun x hx => h x (by simp [hx]))
     obtain ⟨hv, hk, hp⟩ := h e (by simp)
-    obtain ⟨card, c1, c2, c3⟩ := entry_survives e.1 e.2 hv hk hp
+    obtain ⟨card, c1, _, c2, c3⟩ := entry_survives e.1 e.2 hv hk hp
     refine ⟨card :: cards, ?_, ?_, ?_⟩
     · rw [List.mapM_cons, show cardOf e = some card from c1, h1]; rfl
     · intro c hc
